@@ -338,8 +338,10 @@ def main():
     txt = "\n".join(L) + "\n"
     old = open(OUT).read() if os.path.exists(OUT) else None
     if old != txt:
-        with open(OUT, "w") as f:
+        _tmp = OUT + ".tmp%d" % os.getpid()
+        with open(_tmp, "w") as f:
             f.write(txt)
+        os.replace(_tmp, OUT)  # atomic: a concurrent coqc never sees a partial file
     return {"constants": len(seen), "units": len(done), "classes": len(classes), "sha256": sha,
             "conv": conv_expr, "class_names": [c[0] for c in classes]}
 
